@@ -25,7 +25,7 @@ ENGINE = 'E2 bfs'
 LEVEL = 'model_checking'
 LEVEL_TEXT = (
     'Explicit-state BFS over all statement histories up to depth 2 (full 40-statement alphabet) and 3 '
-    '(16-statement core alphabet) in the quick tier, 3 and 4-5 in the thorough tier, in 4 mode '
+    '(20-statement core alphabet) in the quick tier, 3 and 4 in the thorough tier, in 4 mode '
     'configurations (text 80/40, SCREEN 1, SCREEN 2) with VIEW PRINT set/reset as operations; the real '
     'session is rebuilt by replay and compared after every statement with a non-deterministic reference '
     'terminal derived from the statement. States are merged only on the complete text-screen state.')
@@ -346,8 +346,7 @@ def legs(ctx):
     if ctx.quick:
         plan = [(cid, True, 2, None) for cid in CONFIGS] + [(cid, False, 3, None) for cid in ('t80', 's1')]
     else:
-        plan = [(cid, True, 3, None) for cid in CONFIGS] + [
-            (cid, False, 5 if cid == 't80' else 4, None) for cid in CONFIGS]
+        plan = [(cid, True, 3, None) for cid in CONFIGS] + [(cid, False, 4, None) for cid in CONFIGS]
     for cid, full, depth, budget in plan:
         n = len(ops_for(cid, full))
         out.append(Leg('bfs-%s-%s' % (cid, 'full' if full else 'core'), [(cid, full, depth, budget)], work_bfs,
